@@ -2,6 +2,7 @@ import HdVerif.Proofs.Volume
 import HdVerif.Proofs.VolumeOrient
 import HdVerif.Proofs.VolumeChannels
 import HdVerif.Proofs.VolumeOnto
+import HdVerif.Proofs.VolumeTie
 /-! # C08  Volume operations never move a voxel in physical space
 
 Property theorems only (helper lemmas: `Proofs/Volume.lean`; model: `Model/Volume.lean`).
@@ -461,6 +462,57 @@ theorem view_result_aliases (s : Store) (own given : Nat) :
     resultBuffer .view s own given = some own ∧ storeAfter .view s [] = s :=
   view_aliases s own given
 
+/-! ## bridges: hand-written definitions use exactly the expressions of the current source (T9h – T9l)
+
+Re-exported from `Proofs/VolumeTie.lean`.  The regenerated side: `orientStep` (loop body of `to_patient_orientation`),
+`orientOpposites` / `closestPosDirs` / `closestNegDirs` / `closestSign` (tables and sign test of `spatial.py`),
+`padValueTable` (if-chain of `Volume.pad.pad_array`), `permGeomShape` / `permArrayAxes` / `permAffineCols`
+(`permute_spatial_axes` of both classes and `_transform_affine_matrix`, evaluated on label data). -/
+
+/-- `planAxis` (one desired direction of `to_patient_orientation`) is the source's loop body: same entry of
+`permute_indices`, same decision to flip, and the axis put into `flip_axes` is that same entry. -/
+theorem bridge_orientation_loop_body (cur : Orient) (d : Dir) (position : Int) :
+    planAxis cur d = (planAxisSrc cur d position).map (fun r => (r.1, r.2.1)) ∧
+    ∀ p hf fl, planAxisSrc cur d position = .ok (p, hf, fl) → hf = true → fl = p :=
+  planAxis_is_source_step cur d position
+
+/-- `orientPlan` is that loop body run over the three desired directions, collecting `permute_indices` and `flip_axes`. -/
+theorem bridge_orientation_loop (cur des : Orient) :
+    orientPlan cur des = (do
+      let a ← planAxisSrc cur des.1 0
+      let b ← planAxisSrc cur des.2.1 1
+      let c ← planAxisSrc cur des.2.2 2
+      pure ([a.1, b.1, c.1], (if a.2.1 then [a.2.2] else []) ++ (if b.2.1 then [b.2.2] else []) ++ (if c.2.1 then [c.2.2] else []))) :=
+  orientPlan_is_source_loop cur des
+
+/-- `Dir.opp`, `posDir`, `negDir`, `dirOf` are `PATIENT_ORIENTATION_OPPOSITES`, `pos_directions`, `neg_directions` and
+the sign test of `get_closest_patient_orientation`. -/
+theorem bridge_orientation_tables (d : Dir) (v : V3) (r : Ax) :
+    srcOpp d = some d.opp ∧
+    closestPosDirs = [dirName (posDir .a0), dirName (posDir .a1), dirName (posDir .a2)] ∧
+    closestNegDirs = [dirName (negDir .a0), dirName (negDir .a1), dirName (negDir .a2)] ∧
+    ((closestSign (v.get r) = .ok 1 ∧ dirOf v r = posDir r) ∨ (closestSign (v.get r) = .ok 0 ∧ dirOf v r = negDir r)) :=
+  ⟨opp_is_source_table d, posNeg_are_source_tables.1, posNeg_are_source_tables.2, dirOf_uses_source_sign v r⟩
+
+/-- `statOf` dispatches the statistic modes exactly as the if-chain of `pad_array`; CONSTANT pads with the caller's
+value and EDGE hands no constant to `numpy.pad`. -/
+theorem bridge_pad_value_dispatch (name : String) (mode : PadMode) (hm : PadMode.parse name = some mode)
+    (hs : isStat mode = true) (l : List Rat) :
+    statOf mode l = srcStat name l ∧ padValueTable.lookup "CONSTANT" = some "cval" ∧ padValueTable.lookup "EDGE" = none :=
+  ⟨statOf_is_source_dispatch hm hs l, constant_edge_source_dispatch.1, constant_edge_source_dispatch.2⟩
+
+/-- `Geom.permute` / `permSrc` permute sizes, affine columns and array axes as the source does for each of the six
+permutations, and the source permutes all three alike. -/
+theorem bridge_permutation (g : Geom) (q : Perm) (hq : PermValid q) :
+    ((permGeomShape.lookup (permKey q)).map (fun rs => rs.filterMap (fun k => (axOfNat k).map g.size))
+      = some [(g.permute q).n0, (g.permute q).n1, (g.permute q).n2] ∧
+     (permAffineCols.lookup (permKey q)).map (fun rc => rc.filterMap (fun k => (axOfNat k).map g.col))
+      = some [(g.permute q).c0, (g.permute q).c1, (g.permute q).c2] ∧
+     ∀ j : I3, (permArrayAxes.lookup (permKey q)).map (fun ra => ra.filterMap (fun k => (axOfNat k).map (permSrc q j).get))
+      = some [j.i0, j.i1, j.i2]) ∧
+    permGeomShape = permAffineCols ∧ permAffineCols = permArrayAxes :=
+  ⟨permute_is_source_tables g q hq, permute_source_tables_agree.1, permute_source_tables_agree.2⟩
+
 /-! ## non-vacuity -/
 
 /-- a left-handed, rotated (axis-swapping), anisotropic geometry of shape 4 × 3 × 5 -/
@@ -504,5 +556,11 @@ example : (runHistory .patient v0 mixedOps).toBool = true ∧ (∀ op ∈ mixedO
   intro op hop
   simp only [mixedOps, List.mem_cons, List.not_mem_nil, or_false] at hop
   rcases hop with rfl | rfl | rfl | rfl | rfl <;> rfl
+
+/-- the bridged source loop on a concrete request: current (P, R, H), desired F needs the opposite H (axis 2, flipped) -/
+example : planAxisSrc (.P, .R, .H) .F 0 = .ok (2, true, 2) ∧ planAxisSrc (.P, .R, .H) .R 1 = .ok (1, false, 0) ∧
+    srcStat "MEDIAN" [3, 1, 2] = some 2 ∧ PermValid (.a1, .a2, .a0) := by
+  refine ⟨by decide +kernel, by decide +kernel, by decide +kernel, ?_⟩
+  simp [PermValid]
 
 end HdVerif.C08
